@@ -25,6 +25,14 @@
 //!                process), nest.tree / nest.mutant / nest.soup.  Oracles: an accepted statement never needs
 //!                more than 64 live expression frames across subquery boundaries (generator count and AST),
 //!                the child never dies.
+//!   cmt.*        ORACLE ONLY (metamorphic, real lexer + parser, the model is not asked): comments and whitespace
+//!                are not part of the meaning.  S = comment-free statement text, S' = S with well-nested block
+//!                comments (star runs before closing marks, `/` runs before nested openers, nesting, banners) or
+//!                blank + `--` comment + newline in front of tokens: tokenize(S') = tokenize(S) with spans moved
+//!                by the inserted bytes, parse / parse_all equal up to spans.  cmt.directed runs first (the four
+//!                demonstrations of seeded C15_3, every shape in front of every token); cmt.random[.line].
+//!                Failures are shrunk to the fewest insertion points and the shortest comment.
+//!                cmt.reference_scanner_vs_model: the harness's notion of "well nested" against the model's.
 //!   known.*      directed reproduction of the listed KNOWN finding and directed regression inputs of
 //!                the two FIXED ones, before any random stream.
 //!   soup         random token lists over the model alphabet (mostly ill-formed): Ok/Err, error kind
@@ -3660,6 +3668,31 @@ fn f_tokens_case(m: &mut Model, rep: &mut Report, r: &mut Rng, words: &[String],
         if nt != words.len() + 1 {
             rep.disagree("lex.rendered", json!({"text": rd.text, "tokens": line}), &format!("{nt} tokens"), &format!("{} words + eof", words.len()));
         }
+        // the same tokens with generated block comments (star / slash runs, nesting) in front of some or all of
+        // them, placed by the renderer's own token table: still exactly these tokens.  (The separators of the
+        // renderers themselves stay plain, so that a comment-scanner regression is reported by the comment
+        // oracle `cmt.*` and not under the precedence / structure classes of the streams that render.)
+        let every = r.chance(1, 3);
+        let mut text2 = String::new();
+        let mut prev = 0usize;
+        for st in rd.starts.iter() {
+            text2.push_str(&rd.text[prev..*st]);
+            prev = *st;
+            if every || r.chance(1, 4) {
+                text2.push_str(&cmt_gen(r, 3));
+            }
+        }
+        text2.push_str(&rd.text[prev..]);
+        if r.chance(1, 3) {
+            text2.push_str(&cmt_gen(r, 3));
+        }
+        if text2.chars().count() <= 600 {
+            let real2 = lex_case(m, rep, &text2, "lex.rendered.commented");
+            let nt2 = real2.split(' ').count();
+            if nt2 != words.len() + 1 {
+                rep.disagree("lex.rendered.commented", json!({"text": text2, "tokens": line}), &format!("{nt2} tokens"), &format!("{} words + eof", words.len()));
+            }
+        }
     }
     (imp, simp)
 }
@@ -4153,6 +4186,16 @@ const LEX_DIRECTED: &[&str] = &[
     "+-*/%", "= => ==", "! != !!", "< <= <> << <<<", "> >= >> >>>", "& && &&&", "| || |||", "^~()[]{},.;", ": :: :::", "?@#$", "`", "\\", "\u{00A0}x\u{2028}y\u{3000}",
     "a\u{00A0}b", "a\u{0085}b", "\u{FEFF}a", "\u{200B}a", "1\u{00A0}2",
     "SELECT * FROM t WHERE a<=1.5e3--x\nAND b<>'y'/*z*/;",
+    // block comments: star runs of every parity before the closing `*/`, `/` runs before a nested opener, banners,
+    // nesting, a comment at the very start / end, the unterminated variants
+    "/**/x", "/***/x", "/****/x", "/*****/x", "/******/x", "/*******/x", "/********/x",
+    "/* c*/x", "/* c**/x", "/* c***/x", "/* c****/x", "/* c*****/x", "/* c******/x", "/* c *******/x",
+    "/* a /* b */ c */x", "/* a //* b */ c */x", "/* a ///* b */ c */x", "/* a ////* b */ c */x", "/* a /////* b */ c */x",
+    "/*/* b */ c */x", "/*//* b */ c */x", "/*/ */x", "/*// */x", "/* /*/ */ */x", "/* a **/ b */x", "/* a /** b */ c */x", "/* a /** b **/ c **/x",
+    "/*/*/*/*/**/*/*/*/*/x", "/* 1 /* 2 /* 3 /* 4 **/ 3 ***/ 2 ****/ 1 *****/x", "/**** banner ****/x", "/**** x ****/ y /**** z ****/",
+    "DELETE FROM t /* only one row **/ WHERE id = 1", "SELECT 1; /**** section ****/ SELECT 2; SELECT 3", "SELECT /* a //* b */ c */ 1",
+    "SELECT a /***/ FROM t WHERE id = 1", "x/***/", "x /* c **/", "/* c **/", "/***", "/* a //* b */ c", "/* a **/ b */", "a/***/b/****/c/*****/d",
+    "a -- /* x\nb **/ c", "a /* -- **/ b", "a /* ' **/ b", "'/* c **/'", "a /*\n**\n**/ b", "a /* é ß **/ b", "a */ b", "a **/ b", "a //* b", "a / /* c **/ b", "a * /* c **/ * b",
 ];
 
 const LEX_ALPHABET: &[&str] = &[
@@ -4160,6 +4203,7 @@ const LEX_ALPHABET: &[&str] = &[
     "'", "'", "\"", "\\", "\\", "n", "=", "<", ">", "!", "&", "|", ":", "(", ")", "[", "]", "{", "}", ",", ";", "?", "@", "#", "$", "^", "~", "%", "`",
     "é", "ß", "\u{017F}", "\u{0131}", "\u{00A0}", "\u{2028}", "\u{3000}", "\u{0085}", "\u{0663}", "\u{FF11}", "\u{4E2D}", "\u{1F600}", "\u{0301}", "\u{200B}",
     "select", "IS", "null", "12", "3.5", "1e", "--", "/*", "*/", "''", "ab",
+    "/*", "*/", "**/", "***/", "/**", "//*", "/***/", "*", "/", "/* c */", "/* c **/",
 ];
 
 fn stream_lex(m: &mut Model, rep: &mut Report, rng: &Rng, thorough: bool) {
@@ -4184,8 +4228,19 @@ fn stream_lex(m: &mut Model, rep: &mut Report, rng: &Rng, thorough: bool) {
     for _ in 0..n {
         let len = r.below(24) as usize;
         let mut text = String::new();
+        // a third of the texts carry generated block comments (star / slash runs, nesting, sometimes cut short)
+        let commented = r.chance(1, 3);
         for _ in 0..len {
-            text.push_str(*r.pick(LEX_ALPHABET));
+            if commented && r.chance(1, 4) {
+                let mut c = cmt_gen(&mut r, 3);
+                if r.chance(1, 6) {
+                    c.pop();
+                }
+                text.push_str(&c);
+                rep.hit("lex.random.generated_comment");
+            } else {
+                text.push_str(*r.pick(LEX_ALPHABET));
+            }
         }
         lex_case(m, rep, &text, "lex.random");
     }
@@ -4337,6 +4392,7 @@ const TEXT_PIECES: &[&str] = &[
     "IS", "is", "IN", "in", "BETWEEN", "between", "LIKE", "like", "CASE", "WHEN", "THEN", "ELSE", "END", "DISTINCT",
     "EXISTS", "SELECT", "CAST", "AS", "FROM", "WHERE",
     " ", " ", " ", " ", "  ", "\n", "\t", "-- c\n", "/* c */", "/* a /* b */ c */", "/*", "--",
+    "/***/", "/* x **/", "/**** y ****/", "/* a //* b **/ c */", "/*/* /* d */ **/*/", "**/", "//*", "*/",
     "é", "ß", "\u{00A0}", "\u{2028}", "\u{0663}", "\u{1F600}", "\u{017F}", "`", "\\", "&&", "::", "->", "=>",
 ];
 
@@ -4346,6 +4402,8 @@ fn stream_text(m: &mut Model, rep: &mut Report, rng: &Rng, thorough: bool) {
         "CAST(a AS INT)", "a BETWEEN 1 AND 2 * 3", "NOT a NOT LIKE 'p%' OR b", "count(DISTINCT *)", "status.*", "select", "1 +", "1 + é",
         "a /* never closed", "a -- c", "'é' || \"\u{1F600}\"", "a.b.c.*", "i\u{017F} null", "x i\u{017F} null", "[1, [2, (3, 4)], ()]",
         "CASE WHEN a THEN b", "CASE a END", "1e", "1 2", "9223372036854775808", "- 9223372036854775808", "a\u{00A0}+\u{3000}b", "a ORDER BY b",
+        "a /* x **/ + b", "a /***/ + b", "a + /**** y ****/ b * c", "a /* p //* q */ r */ + b", "/***/ a", "a /***/", "a /* x **/ IS /* y ***/ NOT /**/ NULL",
+        "f(/* 1 **/ a /*2***/, /*/* 3 */**/ b)", "a /* never closed **", "a /* p //* q */ r",
     ] {
         text_case(m, rep, t, "text.directed");
     }
@@ -4885,6 +4943,471 @@ fn stream_clause(m: &mut Model, rep: &mut Report, rng: &Rng, thorough: bool) {
     }
 }
 
+// ------------------------------------------------------------------ comments are not part of the meaning
+//
+// Metamorphic property oracle on the REAL lexer / parser, independent of the model's answers: for a statement
+// text S and the text S' obtained from it by inserting well-nested block comments (or blank + line comment +
+// newline) in front of tokens, `tokenize(S')` is `tokenize(S)` with the spans shifted by the inserted bytes,
+// `parse(S')` is `parse(S)` up to spans and `parse_all(S')` has the same statements.  "Well nested" is decided by
+// `cmt_ref_end`, a scanner written from the MODEL's `skip (.block k)` (Parse/Lex.lean; `LexProps.WellNested`
+// is the inductive form, `block_comment_is_trivia` the theorem), never by the lexer under test.
+
+const CMT_CLASS: &str = "neumann_parser::Lexer::skip_whitespace_and_comments/comment_changes_meaning";
+const CMT_LINE_CLASS: &str = "neumann_parser::Lexer::skip_whitespace_and_comments/line_comment_changes_meaning";
+
+/// `cs[i..]` starts with `/*`: the index just after the `*/` that closes it, by the model's rule (a `/*` inside
+/// opens a nested comment, both two-character marks are recognised by look-ahead and consumed as a pair,
+/// every other character is skipped alone); `None` when the comment runs to the end of the text
+fn cmt_ref_end(cs: &[char], i: usize) -> Option<usize> {
+    if !(i + 1 < cs.len() && cs[i] == '/' && cs[i + 1] == '*') {
+        return None;
+    }
+    let mut j = i + 2;
+    let mut k = 0usize;
+    while j < cs.len() {
+        if j + 1 < cs.len() && cs[j] == '/' && cs[j + 1] == '*' {
+            k += 1;
+            j += 2;
+        } else if j + 1 < cs.len() && cs[j] == '*' && cs[j + 1] == '/' {
+            j += 2;
+            if k == 0 {
+                return Some(j);
+            }
+            k -= 1;
+        } else {
+            j += 1;
+        }
+    }
+    None
+}
+
+fn cmt_well_nested(c: &str) -> bool {
+    let cs: Vec<char> = c.chars().collect();
+    cmt_ref_end(&cs, 0) == Some(cs.len())
+}
+
+/// a well-nested block comment of the adversarial shapes: star runs (length 1..6, so both parities) directly
+/// before the closing `*/` and elsewhere, `/` runs directly before a nested opener and elsewhere, nesting up to
+/// `depth` levels, banners, line-comment and quote marks, newlines and non-ASCII inside
+fn cmt_gen(r: &mut Rng, depth: usize) -> String {
+    #[derive(PartialEq, Clone, Copy)]
+    enum End {
+        Neutral,
+        Star,
+        Slash,
+    }
+    fn body(r: &mut Rng, depth: usize, out: &mut String) {
+        let mut end = End::Neutral;
+        let fill = |r: &mut Rng, out: &mut String| out.push_str(*r.pick(&[" ", " ", "x", "\n", "-", "é"]));
+        let n = r.below(5);
+        for _ in 0..n {
+            match r.below(12) {
+                0 | 1 | 2 => {
+                    if end == End::Slash {
+                        fill(r, out);
+                    }
+                    for _ in 0..1 + r.below(6) {
+                        out.push('*');
+                    }
+                    end = End::Star;
+                }
+                3 | 4 => {
+                    if end == End::Star {
+                        fill(r, out);
+                    }
+                    for _ in 0..1 + r.below(3) {
+                        out.push('/');
+                    }
+                    end = End::Slash;
+                }
+                5 | 6 | 7 if depth > 0 => {
+                    // a nested comment, half of the time with a `/` run directly before its opener
+                    if end == End::Star {
+                        fill(r, out);
+                    }
+                    if r.chance(1, 2) {
+                        for _ in 0..1 + r.below(3) {
+                            out.push('/');
+                        }
+                    }
+                    out.push_str("/*");
+                    body(r, depth - 1, out);
+                    out.push_str("*/");
+                    end = End::Neutral;
+                }
+                8 => {
+                    out.push_str(*r.pick(&[" banner ", " only one row ", " -- ", " ' ", " \" ", "\n", " é ", " a * b ", " a / b ", " ; "]));
+                    end = End::Neutral;
+                }
+                _ => {
+                    out.push_str(*r.pick(&[" ", "x", " c ", "1", "\t"]));
+                    end = End::Neutral;
+                }
+            }
+        }
+        // what stands directly before the closing `*/`: a star run (half of the time), or whatever came last
+        if r.chance(1, 2) {
+            if end == End::Slash {
+                fill(r, out);
+            }
+            for _ in 0..1 + r.below(6) {
+                out.push('*');
+            }
+        } else if end == End::Slash {
+            fill(r, out);
+        }
+    }
+    let mut out = String::from("/*");
+    body(r, depth, &mut out);
+    out.push_str("*/");
+    if cmt_well_nested(&out) {
+        out
+    } else {
+        // cannot happen by construction; never hand a text to the oracle that the reference scanner rejects
+        "/* c */".to_string()
+    }
+}
+
+/// `Debug` text with every byte position blanked: the AST / error "up to spans"
+fn cmt_strip_spans(dbg: &str) -> String {
+    let mut out = String::with_capacity(dbg.len());
+    let mut rest = dbg;
+    while let Some(i) = rest.find("BytePos(") {
+        out.push_str(&rest[..i + 8]);
+        out.push('_');
+        let after = &rest[i + 8..];
+        let j = after.find(')').unwrap_or(after.len());
+        rest = &after[j..];
+    }
+    out.push_str(rest);
+    out
+}
+
+/// what the real lexer and parser make of a text: (kind, source text, lo, hi) of every token, `parse`, `parse_all`
+struct CmtView {
+    toks: Vec<(String, String, usize, usize)>,
+    parse: String,
+    all: Vec<String>,
+    all_err: Option<String>,
+}
+
+fn cmt_view(text: &str) -> std::result::Result<CmtView, String> {
+    let t = text.to_string();
+    guarded(move || {
+        let toks = np::tokenize(&t)
+            .into_iter()
+            .map(|k| {
+                let (lo, hi) = (k.span.start.0 as usize, k.span.end.0 as usize);
+                (format!("{:?}", k.kind), t.get(lo..hi).unwrap_or("<span outside the text>").to_string(), lo, hi)
+            })
+            .collect();
+        let parse = cmt_strip_spans(&format!("{:?}", np::parse(&t)));
+        let (all, all_err) = match np::parse_all(&t) {
+            Ok(v) => (v.iter().map(|s| cmt_strip_spans(&format!("{s:?}"))).collect(), None),
+            Err(e) => (Vec::new(), Some(cmt_strip_spans(&format!("{e:?}")))),
+        };
+        CmtView { toks, parse, all, all_err }
+    })
+}
+
+/// one insertion: `text` goes directly in front of token `at` of S (`at` = index of `Eof`: at the very end)
+#[derive(Clone, Debug)]
+struct CmtIns {
+    at: usize,
+    text: String,
+}
+
+fn cmt_apply(s: &str, starts: &[usize], ins: &[CmtIns]) -> String {
+    let mut out = String::with_capacity(s.len() + ins.iter().map(|i| i.text.len()).sum::<usize>());
+    let mut prev = 0usize;
+    for (i, st) in starts.iter().enumerate() {
+        out.push_str(&s[prev..*st]);
+        prev = *st;
+        for k in ins.iter().filter(|k| k.at == i) {
+            out.push_str(&k.text);
+        }
+    }
+    out.push_str(&s[prev..]);
+    out
+}
+
+/// `None` when S' means what S means; otherwise what differs
+fn cmt_diff(base: &CmtView, s: &str, starts: &[usize], ins: &[CmtIns]) -> Option<String> {
+    let s2 = cmt_apply(s, starts, ins);
+    let v = match cmt_view(&s2) {
+        Ok(v) => v,
+        Err(p) => return Some(format!("the commented text makes the parser panic: {p}")),
+    };
+    if v.toks.len() != base.toks.len() {
+        let i = (0..v.toks.len().min(base.toks.len()))
+            .find(|i| v.toks[*i].0 != base.toks[*i].0 || v.toks[*i].1 != base.toks[*i].1)
+            .unwrap_or(v.toks.len().min(base.toks.len()) - 1);
+        return Some(format!(
+            "tokenize gives {} tokens instead of {}; token {i} is {} {:?} instead of {} {:?}",
+            v.toks.len(), base.toks.len(), v.toks[i].0, v.toks[i].1, base.toks[i].0, base.toks[i].1
+        ));
+    }
+    let mut shift = 0usize;
+    for (i, (a, b)) in v.toks.iter().zip(base.toks.iter()).enumerate() {
+        shift += ins.iter().filter(|k| k.at == i).map(|k| k.text.len()).sum::<usize>();
+        if a.0 != b.0 || a.1 != b.1 {
+            return Some(format!("token {i} is {:?} {:?} instead of {:?} {:?}", a.0, a.1, b.0, b.1));
+        }
+        if a.2 != b.2 + shift || a.3 != b.3 + shift {
+            return Some(format!("token {i} {:?} has span {}..{} instead of {}..{} (its span without comments {}..{} plus {shift} inserted bytes)",
+                a.0, a.2, a.3, b.2 + shift, b.3 + shift, b.2, b.3));
+        }
+    }
+    if v.parse != base.parse {
+        return Some(format!("parse gives {} instead of {}", v.parse, base.parse));
+    }
+    if v.all.len() != base.all.len() || v.all_err != base.all_err {
+        return Some(format!("parse_all gives {} statements / error {:?} instead of {} statements / error {:?}", v.all.len(), v.all_err, base.all.len(), base.all_err));
+    }
+    for (i, (a, b)) in v.all.iter().zip(base.all.iter()).enumerate() {
+        if a != b {
+            return Some(format!("statement {i} of parse_all is {a} instead of {b}"));
+        }
+    }
+    None
+}
+
+/// is this insertion text one the property speaks about: a well-nested block comment, or blank + `--` line
+/// comment + newline, possibly with blanks around
+fn cmt_legal(text: &str) -> bool {
+    let t = text.trim_matches(' ');
+    if t.starts_with("--") {
+        return text.starts_with(' ') && t.ends_with('\n') && !t[..t.len() - 1].contains('\n');
+    }
+    cmt_well_nested(t)
+}
+
+/// the oracle: evaluate, and on failure shrink to the fewest insertion points and the shortest comment texts
+fn cmt_case(rep: &mut Report, stream: &str, s: &str, ins: &[CmtIns]) -> bool {
+    let base = match cmt_view(s) {
+        Ok(v) => v,
+        Err(p) => {
+            viol_once(rep, "neumann_parser::parse/panic", &format!("parser panicked on a comment-free text: {p}"), json!({"text": s}));
+            return false;
+        }
+    };
+    let starts: Vec<usize> = base.toks.iter().map(|t| t.2).collect();
+    debug_assert!(ins.iter().all(|k| k.at < starts.len() && cmt_legal(&k.text)));
+    let ins: Vec<CmtIns> = ins.iter().filter(|k| k.at < starts.len() && cmt_legal(&k.text)).cloned().collect();
+    rep.case(stream, Some(&cmt_apply(s, &starts, &ins)));
+    rep.hit(&format!("cmt.points.{}", match ins.len() { 0 => "0", 1 => "1", 2..=3 => "2-3", _ => "4+" }));
+    if ins.len() + 1 >= starts.len() && starts.len() > 2 {
+        rep.hit("cmt.points.before_every_token");
+    }
+    if ins.iter().any(|k| k.at == 0) {
+        rep.hit("cmt.at_very_start");
+    }
+    if ins.iter().any(|k| k.at + 1 == starts.len()) {
+        rep.hit("cmt.at_very_end");
+    }
+    let Some(first_what) = cmt_diff(&base, s, &starts, &ins) else {
+        return true;
+    };
+    // fewest insertion points
+    let mut fails = |cand: &[CmtIns]| cmt_diff(&base, s, &starts, cand).is_some();
+    let mut min = shrink_list(&ins, &mut fails);
+    // shortest comment texts (still of the shapes the property speaks about)
+    for i in 0..min.len() {
+        let chars: Vec<char> = min[i].text.chars().collect();
+        let mut probe = min.clone();
+        let mut keep = |cand: &[char]| {
+            let t: String = cand.iter().collect();
+            if !cmt_legal(&t) {
+                return false;
+            }
+            probe[i].text = t;
+            cmt_diff(&base, s, &starts, &probe).is_some()
+        };
+        let small = shrink_list(&chars, &mut keep);
+        min[i].text = small.into_iter().collect();
+    }
+    let what = cmt_diff(&base, s, &starts, &min).unwrap_or(first_what);
+    let line = min.iter().all(|k| k.text.trim_matches(' ').starts_with("--"));
+    let s2 = cmt_apply(s, &starts, &min);
+    viol_once(
+        rep,
+        if line { CMT_LINE_CLASS } else { CMT_CLASS },
+        &format!("inserting {} in front of token {} of `{s}` changes what the text means: {what}",
+            min.iter().map(|k| format!("{:?}", k.text)).collect::<Vec<_>>().join(", "),
+            min.iter().map(|k| k.at.to_string()).collect::<Vec<_>>().join(", ")),
+        json!({"text": s2, "without_comments": s, "comments": min.iter().map(|k| k.text.clone()).collect::<Vec<_>>(),
+               "in_front_of_token": min.iter().map(|k| k.at).collect::<Vec<_>>()}),
+    );
+    false
+}
+
+/// statement texts of every family (no comments in them), single statements and scripts
+fn cmt_statement(r: &mut Rng, m: &mut Model) -> String {
+    match r.below(10) {
+        0 | 1 | 2 | 3 => (*r.pick(VALID)).to_string(),
+        4 | 5 => {
+            // a script for parse_all
+            let n = 2 + r.below(3) as usize;
+            (0..n).map(|_| *r.pick(VALID)).collect::<Vec<_>>().join(if r.chance(1, 2) { "; " } else { ";" })
+        }
+        6 => (*r.pick(&[
+            "DELETE FROM t WHERE id = 1", "UPDATE t SET a = 1 WHERE id = 2", "SELECT a FROM t WHERE id = 1", "SELECT 1; SELECT 2; SELECT 3",
+            "SELECT a/b*c-d FROM t WHERE x<=1.5e3 AND y<>'s''s'", "SELECT a - -b, c->d, e::f FROM t",
+        ])).to_string(),
+        _ => {
+            // a generated expression of the complete grammar in a WHERE clause (spelling chosen by the renderer, no comments)
+            let mut na = 0;
+            let depth = 1 + r.below(3) as usize;
+            let t = f_gen(r, depth, &mut na);
+            let mut pol = Vec::new();
+            t.polish(&mut pol);
+            let words = words_of(&m.ask(&format!("fprint min {}", pol.join(" "))));
+            let rd = f_render(&words, r, false);
+            match r.below(3) {
+                0 => format!("{STMT_PREFIX}{}", rd.text),
+                1 => format!("DELETE FROM t WHERE {}", rd.text),
+                _ => format!("UPDATE t SET a = 1 WHERE {}", rd.text),
+            }
+        }
+    }
+}
+
+/// the comment shapes every directed statement is run with
+fn cmt_directed_shapes() -> Vec<String> {
+    let mut v: Vec<String> = Vec::new();
+    // the bodies of the regression's demonstration
+    for b in ["", " plain ", "*", "**", "***", " banner ****", " doc-style **", " a * b ", " a / b ", " a // b ",
+        " nested /* inner */ outer ", " nested /* inner **/ outer *", " only one row *", "*** section ***", " a //* b */ c "] {
+        v.push(format!("/*{b}*/"));
+    }
+    // star runs of length 0..6 directly before the closing mark, alone and after text, and before an inner closing mark
+    for k in 0..=6 {
+        let stars = "*".repeat(k);
+        v.push(format!("/*{stars}*/"));
+        v.push(format!("/* c{stars}*/"));
+        v.push(format!("/* a /* b {stars}*/ c */"));
+        v.push(format!("/*{stars} c */"));
+    }
+    // `/` runs of length 0..4 directly before a nested opener, and directly after the outer opener
+    for k in 0..=4 {
+        let sl = "/".repeat(k);
+        v.push(format!("/* a {sl}/* b */ c */"));
+        v.push(format!("/*{sl}/* b */ c */"));
+        v.push(format!("/*{sl} c */"));
+    }
+    // nesting depth 0..4, plain and with star runs of growing length before every closing mark
+    for d in 0..=4usize {
+        let mut plain = String::new();
+        let mut starred = String::new();
+        for i in 0..=d {
+            plain.push_str("/* ");
+            plain.push_str(&i.to_string());
+            starred.push_str(if i % 2 == 1 { "//* " } else { "/* " });
+        }
+        for i in 0..=d {
+            plain.push_str(" */");
+            starred.push_str(&"*".repeat(i + 1));
+            starred.push_str("*/");
+        }
+        v.push(plain);
+        v.push(starred);
+    }
+    // the shapes the renderers put between tokens
+    for c in ["/* c */", "/* a /* nested */ b */", "/* x **/", "/***/", "/**** banner ****/", "/* a //* b **/ c ***/", "/*/* /* d */ **/*/", "/*\n**\n**/", "/* -- **/", "/* ' **/"] {
+        v.push(c.to_string());
+    }
+    v
+}
+
+fn cmt_directed(m: &mut Model, rep: &mut Report) {
+    let shapes = cmt_directed_shapes();
+    // the reference scanner and the model agree on what a well-nested comment is: after `c` the model lexes `x`
+    for c in &shapes {
+        let n = c.len();
+        let expected = if cmt_well_nested(c) { format!("ident@{n}-{} eof@{}-{}", n + 1, n + 1, n + 1) } else { "not a well-nested comment".to_string() };
+        let model = m.ask(&format!("lex {}", lex_enc(&format!("{c}x"))));
+        rep.case("cmt.reference_scanner_vs_model", Some(c));
+        rep.compare("cmt.reference_scanner_vs_model", || json!({"comment": c}), &expected, &model);
+    }
+    // the regression's own four demonstrations first
+    for (s, at, c) in [
+        ("DELETE FROM t WHERE id = 1", 3usize, "/* only one row **/"),
+        ("SELECT 1; SELECT 2; SELECT 3", 3, "/**** section ****/"),
+        ("SELECT 1", 1, "/* a //* b */ c */"),
+        ("SELECT a FROM t WHERE id = 1", 2, "/***/"),
+    ] {
+        cmt_case(rep, "cmt.directed", s, &[CmtIns { at, text: c.to_string() }]);
+        cmt_case(rep, "cmt.directed", s, &[CmtIns { at, text: format!(" {c} ") }]);
+    }
+    // every shape in front of every token of a DELETE / a script, one point at a time, then in front of all at once
+    for s in ["DELETE FROM t WHERE id = 1", "SELECT 1; SELECT 2; SELECT 3", "SELECT a/b*c FROM t WHERE x<=-1"] {
+        let ntok = np::tokenize(s).len();
+        for c in &shapes {
+            for at in 0..ntok {
+                cmt_case(rep, "cmt.directed", s, &[CmtIns { at, text: c.clone() }]);
+            }
+            let all: Vec<CmtIns> = (0..ntok).map(|at| CmtIns { at, text: c.clone() }).collect();
+            cmt_case(rep, "cmt.directed", s, &all);
+        }
+        for at in 0..ntok {
+            cmt_case(rep, "cmt.directed", s, &[CmtIns { at, text: " -- c\n".to_string() }]);
+            cmt_case(rep, "cmt.directed", s, &[CmtIns { at, text: " --\n".to_string() }]);
+            cmt_case(rep, "cmt.directed", s, &[CmtIns { at, text: " -- /* **/ ' \n".to_string() }]);
+        }
+    }
+}
+
+fn stream_comments(m: &mut Model, rep: &mut Report, rng: &Rng, thorough: bool) {
+    let mut r = rng.fork("cmt.random");
+    let n = if thorough { 40000 } else { 4000 };
+    for i in 0..n {
+        let s = cmt_statement(&mut r, m);
+        let ntok = match guarded({ let s = s.clone(); move || np::tokenize(&s).len() }) {
+            Ok(n) => n,
+            Err(_) => continue,
+        };
+        let line_only = r.chance(1, 8);
+        let one = |r: &mut Rng| -> String {
+            if line_only || r.chance(1, 8) {
+                format!(" --{}\n", *r.pick(&["", " c", " /* x", " **/ '", "- -", " é"]))
+            } else {
+                let c = cmt_gen(r, 4);
+                match r.below(4) {
+                    0 => format!(" {c} "),
+                    1 => format!(" {c}"),
+                    _ => c,
+                }
+            }
+        };
+        let mut ins = Vec::new();
+        match r.below(6) {
+            0 | 1 => ins.push(CmtIns { at: r.below(ntok as u64) as usize, text: one(&mut r) }),
+            2 => {
+                for _ in 0..2 + r.below(3) {
+                    ins.push(CmtIns { at: r.below(ntok as u64) as usize, text: one(&mut r) });
+                }
+            }
+            3 => ins.push(CmtIns { at: if r.chance(1, 2) { 0 } else { ntok - 1 }, text: one(&mut r) }),
+            _ => {
+                // a comment between every pair of tokens (and at both ends)
+                for at in 0..ntok {
+                    ins.push(CmtIns { at, text: one(&mut r) });
+                }
+            }
+        }
+        let stream = if line_only { "cmt.random.line" } else { "cmt.random" };
+        let ok = cmt_case(rep, stream, &s, &ins);
+        // the commented text through the lexer model as well (correspondence), on a sample
+        if ok && i % 8 == 0 {
+            let starts: Vec<usize> = np::tokenize(&s).iter().map(|t| t.span.start.0 as usize).collect();
+            let s2 = cmt_apply(&s, &starts, &ins);
+            if s2.chars().count() <= 400 {
+                lex_case(m, rep, &s2, "lex.commented");
+            }
+        }
+    }
+}
+
 // ------------------------------------------------------------------ main
 
 fn main() {
@@ -4955,6 +5478,7 @@ fn main() {
         rep.expected_branches.push(k.to_string());
     }
     directed_known(&mut rep);
+    cmt_directed(&mut m, &mut rep);
     probe_stmt_depth_limit(&mut m, &mut rep, &rng);
     nest_directed(&mut m, &mut rep, &rng);
     f_directed(&mut m, &mut rep, &rng);
@@ -4965,6 +5489,7 @@ fn main() {
     stream_nest(&mut m, &mut rep, &rng, args.thorough);
     stream_clause(&mut m, &mut rep, &rng, args.thorough);
     stream_lex(&mut m, &mut rep, &rng, args.thorough);
+    stream_comments(&mut m, &mut rep, &rng, args.thorough);
     stream_text(&mut m, &mut rep, &rng, args.thorough);
     f_chains(&mut m, &mut rep, &rng, args.thorough);
     stream_full(&mut m, &mut rep, &rng, args.thorough);
